@@ -264,6 +264,23 @@ impl Node {
     }
 }
 
+#[cfg(phylotree_verif)]
+impl Node {
+    pub(crate) fn verif_deleted(&self) -> bool {
+        self.deleted
+    }
+    pub(crate) fn verif_child_edges(&self) -> Option<Vec<(NodeId, EdgeLength)>> {
+        self.child_edges.as_ref().map(|m| {
+            let mut v: Vec<_> = m.iter().map(|(k, e)| (*k, *e)).collect();
+            v.sort_by_key(|(k, _)| *k);
+            v
+        })
+    }
+    pub(crate) fn verif_has_subtree_distances(&self) -> bool {
+        self.subtree_distances.borrow().is_some()
+    }
+}
+
 impl PartialEq for Node {
     fn eq(&self, other: &Self) -> bool {
         match (self.parent, other.parent) {
